@@ -439,7 +439,13 @@ func ruleSTABLEBATCH(p *Program, rep *Report) {
 				key := funcName(fn) + "|" + pkg + "." + callee.Name()
 				switch callee.Name() {
 				case "SliceStable", "Stable", "SortStableFunc":
-					rep.OK("STABLE-BATCH", key, p.InstrPos(ins), "stable sort keeps FIFO order of writes to one page")
+					// a stable sort keeps equal elements in order only for a STRICT less: with `<=` both
+					// less(i,j) and less(j,i) hold for equal ids and the insertion steps swap them
+					if ns := nonStrictLess(p, c); ns != "" {
+						rep.Bad("STABLE-BATCH", key+"|strict-less", p.InstrPos(ins), "the ordering function handed to the stable sort is not strict ("+ns+"): for two queued writes to the same page id less(i,j) and less(j,i) are both true, the stable sort then REVERSES them — the older write (e.g. of a rolled back transaction) is executed last and wins")
+					} else {
+						rep.OK("STABLE-BATCH", key, p.InstrPos(ins), "stable sort with a strict ordering keeps FIFO order of writes to one page")
+					}
 				default:
 					rep.Bad("STABLE-BATCH", key, p.InstrPos(ins), "unstable sort over queued page writes: two writes to the same page id in one batch can be swapped, so older contents (e.g. of a rolled back transaction) can win")
 				}
@@ -449,4 +455,46 @@ func ruleSTABLEBATCH(p *Program, rep *Report) {
 	if found == 0 {
 		rep.OK("STABLE-BATCH", "no-sort", "", "no sort is applied to queued page writes (FIFO order kept)")
 	}
+}
+
+// nonStrictLess inspects the ordering function of a sort call (closure / function argument, or the Less
+// method of a sort.Interface argument): returns a description if some return value is a non-strict
+// comparison (<= or >=), "" if every return is strict / not a comparison.
+func nonStrictLess(p *Program, c ssa.CallInstruction) string {
+	var fns []*ssa.Function
+	for _, a := range c.Common().Args {
+		switch x := resolveFuncValue(a, 0).(type) {
+		case *ssa.MakeClosure:
+			if f, ok := x.Fn.(*ssa.Function); ok {
+				fns = append(fns, f)
+			}
+		case *ssa.Function:
+			fns = append(fns, x)
+		case *ssa.MakeInterface:
+			if n := namedOf(x.X.Type()); n != nil {
+				for _, recv := range []types.Type{n, types.NewPointer(n)} {
+					if sel := p.Prog.MethodSets.MethodSet(recv).Lookup(n.Obj().Pkg(), "Less"); sel != nil {
+						if f := p.Prog.MethodValue(sel); f != nil {
+							fns = append(fns, f)
+						}
+					}
+				}
+			}
+		}
+	}
+	for _, f := range fns {
+		if f.Signature.Results().Len() != 1 {
+			continue
+		}
+		for _, b := range f.Blocks {
+			r, ok := b.Instrs[len(b.Instrs)-1].(*ssa.Return)
+			if !ok || len(r.Results) != 1 {
+				continue
+			}
+			if bo, ok := stripConv(retVal(r, 0)).(*ssa.BinOp); ok && (bo.Op == token.LEQ || bo.Op == token.GEQ) {
+				return "returns x " + bo.Op.String() + " y at " + p.InstrPos(r)
+			}
+		}
+	}
+	return ""
 }
